@@ -1,7 +1,7 @@
 META = {
  'manifest': {'text': 'Bounded symbolic differential checking: the library hash functions (un-stubbed, from the IR of MurmurHash3.h / xxhash64.h) equal reference implementations written from the published algorithms for every key of a given length (one query per length) and every 64-bit seed; compute_seed_hash; plus readers written from the documented layout accept harness-written legacy images (theta v1/v2/v3, tdigest) with the documented content (queries shared with C11: full-length images).',
-              'note': 'hash key lengths 0..16 (murmur) and 0..40 (xxhash) only; layouts checked for compact theta (serial versions 1-3) and tdigest; the shipped .sk files and the baseline corpus are concrete inputs outside a solver claim'},
- 'functions_encoded': ['MurmurHash3_x64_128', 'XXHash64::hash/add/process/hash()', 'compute_seed_hash', 'compact_theta_sketch_parser::parse (v1, v2, v3 images written from the layout)', 'tdigest::deserialize (image written from the layout)'],
+              'note': 'hash key lengths 0..16 (murmur) and 0..40 (xxhash) only; layouts checked for compact theta (serial versions 1-3), tdigest and array-of-doubles tuple (0-2 entries, 1-3 values); the shipped .sk files and the baseline corpus are concrete inputs outside a solver claim'},
+ 'functions_encoded': ['MurmurHash3_x64_128', 'XXHash64::hash/add/process/hash()', 'compute_seed_hash', 'compact_theta_sketch_parser::parse (v1, v2, v3 images written from the layout)', 'tdigest::deserialize (image written from the layout)', 'compact_array_tuple_sketch<array<double>>::serialize(bytes) / deserialize(bytes) (image of a sketch built from parts vs the documented layout)'],
  'bounds': 'murmur: every key length 0..16 (one 16-byte block + every tail length); xxhash: lengths 0..8, 12, 16, 31, 32, 40 (stripe loop once + every tail kind); seed symbolic 64-bit',
  'stubs': [], 'assumes': [], 'outside': ['keys longer than the stated lengths', 'the baseline image corpus / shipped .sk files', 'layouts of the remaining families'],
 }
@@ -19,4 +19,8 @@ def queries(tier):
         for mode in (0, 1):
             qs.append(Q(f'theta_layout_v{kind}_n{n}_e{est}_mode{mode}', 'theta_serde', 'c11_theta.c', defs={'KIND': kind, 'N': n, 'EST': est, 'M': 0, 'MODE': mode, 'CORRUPT': -1, 'FULL': None},
                         unwind=6, unwindset={'^(harness|put64|put32|w_cts_serialize|w_cts_make|verif_mem.*|verif_new.*)$': 70}, timeout=(200 if tier == 'quick' else 900), native_vectors=50, c_defs={'VERIF_NEW_CAPN': 8}, mem_gb=16))
+    # array-of-doubles tuple family: image written by the real serializer vs the documented layout, then read back by the real reader
+    for (ne, nv) in [(0, 1), (0, 3), (1, 1), (1, 2), (2, 1)]:
+        qs.append(Q(f'aod_layout_ne{ne}_nv{nv}', 'serde_aod', 'c10_aod.c', defs={'NE': ne, 'NV': nv}, unwind=10, unwindset={'^(harness|le|emit.*|w_aod_.*|verif_mem.*|verif_new.*)$': 140},
+                    timeout=(240 if tier == 'quick' else 1200), native_vectors=200, c_defs={'VERIF_NEW_CAPN': 64, 'VERIF_VEC_CAP': 8}, mem_gb=10))
     return qs
